@@ -11,9 +11,19 @@
 (*          either where the specification is silent ("free").  A panic,   *)
 (*          abort or timeout is never allowed.                             *)
 (*                                                                         *)
+(*  "ser" : the implementation serialized presentation `pres` (SerdeModel) *)
+(*          under Scope[si] and answered res / bytes.  Allowed iff         *)
+(*          SerAllowed: must succeed / must fail / free as Den says, and   *)
+(*          on success the bytes are an encoding of a denoted value.       *)
+(*                                                                         *)
+(*  "rt"  : "ser" followed, on success, by decoding the produced bytes     *)
+(*          (plus `suffix` sentinel bytes) with the real decoder: the      *)
+(*          decoded value must be the denoted value and exactly the        *)
+(*          produced bytes must have been consumed (C01).                  *)
+(*                                                                         *)
 (* The trace is stateless per event; `l` is the position in the trace.     *)
 (***************************************************************************)
-EXTENDS AvroBinary, Json, IOUtils, TLC
+EXTENDS SerdeModel, Json, IOUtils, TLC
 
 Rec   == ndJsonDeserialize(IOEnv.VERIF_TRACE)
 Scope == ndJsonDeserialize(IOEnv.VERIF_SCOPE)
@@ -27,8 +37,23 @@ DeAllowed(e) ==
           [] r.st = "err"  -> e.res = "err"
           [] r.st = "free" -> e.res \in {"ok", "err"}
 
+SerEvAllowed(e) == SerAllowed(Scope[e.si].nodes, e.pres, e.slow, e.res, IF e.res = "ok" THEN e.bytes ELSE <<>>)
+
+RtAllowed(e) ==
+    LET G == Scope[e.si].nodes
+        d == Den(G, 1, e.pres, e.slow)
+    IN  /\ SerEvAllowed(e)
+        /\ e.res = "ok" =>
+              LET r == DecAll(G, e.bytes) IN
+              /\ e.de.res = "ok"
+              /\ e.de.consumed = Len(e.bytes)
+              /\ IF r.st = "ok" THEN e.de.value = r.v        \* (SerAllowed already tied r.v to the denoted value)
+                 ELSE d.any                                  \* outside the model: nothing more is required
+
 EventOk(e) ==
-    CASE e.ev = "de" -> DeAllowed(e)
+    CASE e.ev = "de"  -> DeAllowed(e)
+      [] e.ev = "ser" -> SerEvAllowed(e)
+      [] e.ev = "rt"  -> RtAllowed(e)
       [] OTHER -> FALSE
 
 Init == l = 1
